@@ -32,11 +32,13 @@ const prop = "C17"
 // Known-finding ids (see /verif/findings.d/c17.json). While a finding is open the generators
 // stay out of exactly its input region.
 const (
-	kfGoName   = "C17-envmap-go-name-of-tagged-field"
-	kfQuoted   = "C17-quoted-key-resplit"
-	kfMapSS    = "C17-mapss-missing-key-present"
-	kfEmptyKey = "C17-empty-key-typed-map"
-	kfMapRoot  = "C17-envmap-omits-map-root-data"
+	kfGoName      = "C17-envmap-go-name-of-tagged-field"
+	kfQuoted      = "C17-quoted-key-resplit"
+	kfMapSS       = "C17-mapss-missing-key-present"
+	kfEmptyKey    = "C17-empty-key-typed-map"
+	kfMapRoot     = "C17-envmap-omits-map-root-data"
+	kfPromotedEnv = "C17-envmap-omits-promoted-fields"
+	kfPromotedTag = "C17-promoted-field-json-tag"
 )
 
 // avoider returns the callback the generators hand to invalidSteps: it answers whether the
@@ -72,7 +74,7 @@ type RootD struct {
 	Dash   string        `json:"dash,omitempty"`  // field tagged "-,"
 	Any    *VD           `json:"any,omitempty"`
 	Row    *VD           `json:"row,omitempty"`  // kinds "row" / "prow": the root value is this Row / a pointer to it
-	Data   *VD           `json:"data,omitempty"` // kind "data": the root value is this value (a map[any]any, ...)
+	Data   *VD           `json:"data,omitempty"` // kind "data" / "pdata": the root value is this value / a pointer to it
 }
 
 // Op is one operation on the current stack.
@@ -144,6 +146,10 @@ func (r RootD) data() any {
 	case "data":
 		if r.Data != nil {
 			return r.Data.Go()
+		}
+	case "pdata":
+		if r.Data != nil {
+			return vList("ptr", *r.Data).Go()
 		}
 	}
 	return nil
@@ -351,7 +357,7 @@ func agree(what string, got any, gok bool, want any, wok bool, mode agreeMode) e
 
 func isStructVal(v any) bool {
 	switch v.(type) {
-	case subT, *subT:
+	case subT, *subT, RootBase, *RootBase:
 		return true
 	}
 	return false
@@ -796,7 +802,9 @@ type PathCase struct {
 
 // "anyroot": the value sits under the key "v" of a map[any]any that is the root DATA (no scope
 // binds it): the first path step goes through Lookup's root-data fallback.
-var binds = []string{"root", "scope", "set", "field", "field-name", "pfield", "anyroot"}
+// "promoted" / "ppromoted": the value is held by field Val of the struct EMBEDDED in the root
+// struct (root by value / by pointer); the first path step is the promoted field's Go name.
+var binds = []string{"root", "scope", "set", "field", "field-name", "pfield", "anyroot", "promoted", "ppromoted"}
 
 func (c PathCase) stack(v any) (*vuego.Stack, string) {
 	switch c.Bind {
@@ -815,6 +823,10 @@ func (c PathCase) stack(v any) (*vuego.Stack, string) {
 		return vuego.NewStackWithData(map[string]any{"other": 1}, rootT{Plain: "p", Any: v}), "Any"
 	case "pfield":
 		return vuego.NewStackWithData(nil, &rootT{Plain: "p", Any: v}), "any"
+	case "promoted":
+		return vuego.NewStackWithData(nil, ERoot{RootBase: RootBase{Pname: "pn", Val: v}, Label: "outer"}), "Val"
+	case "ppromoted":
+		return vuego.NewStackWithData(map[string]any{"other": 1}, &ERoot{RootBase: RootBase{Pname: "pn", Val: v}, Label: "outer"}), "Val"
 	case "anyroot":
 		return vuego.NewStackWithData(map[string]any{"other": 1}, map[any]any{"v": v, 1: "int key", "w": "x"}), "v"
 	}
@@ -977,7 +989,17 @@ func TestProp(t *testing.T) {
 					if root.Row != nil {
 						c.Names = rowUniverse
 					}
-					if root.Kind == "data" && known.Open(kfMapRoot) {
+					if root.Data != nil && root.Data.K == "eroot" {
+						c.Names = eNames(known.Open(kfPromotedTag))
+						if known.Open(kfPromotedTag) {
+							rec.Excluded(kfPromotedTag)
+						}
+						if known.Open(kfPromotedEnv) {
+							// region of the open finding: EnvMap agreement for promoted fields
+							c.EnvSkip = ePromoted
+							rec.Excluded(kfPromotedEnv)
+						}
+					} else if root.Kind == "data" && known.Open(kfMapRoot) {
 						// region of the open finding: EnvMap agreement for names bound only by the
 						// keys of a map used as root data
 						c.EnvSkip = c.Names
